@@ -335,6 +335,19 @@ pub fn run(tier: Tier) -> Report {
         if mode == Mode::StdBaseline && !tier.thorough() {
             seqs.retain(|s| s.len() <= 2);
         }
+        // thorough: sequences of four pictures over every second letter of the small alphabets
+        if tier.thorough() && !big {
+            let sub: Vec<usize> = (0..n).step_by(2).collect();
+            for &a in &sub {
+                for &b in &sub {
+                    for &c in &sub {
+                        for &d in &sub {
+                            seqs.push(vec![a, b, c, d]);
+                        }
+                    }
+                }
+            }
+        }
         for init in [false, true] {
             let calls: u64 = seqs
                 .par_iter()
@@ -509,7 +522,7 @@ pub fn run(tier: Tier) -> Report {
         rep.violation("C15/machinery-padding-coverage", format!("picture alphabet does not realise every padding length 0..7: {pads:?}"), json!({"kind": "machinery"}));
     }
     rep.set_rule(&format!(
-        "all sequences of 1..={maxlen} pictures from an alphabet of type {{I,P,D}} x 8 PEI counts (every padding length 0..7) x bodies (last macroblock coded with AC data / not coded / with MCBPC stuffing codewords) per size, from a fresh decoder and after an I picture, in Sorenson and standard mode: decoder A reads the concatenation from one reader, decoder B gets one reader per picture; A, B and the reference decoder must agree after every call and A's reader must end within 8 bits of the end; plus pictures ending in each kind of final syntax element (every TCOEF form incl. each escape width, INTRADC, COD, each MVD shape, after DQUANT, position 63) at every padding length 0..7, alone / before / after another picture; standard-mode pictures that stop early before the next start code (whenever their own reader accepts them the shared reader must too, with the same picture, and the next picture decodes); 80-macroblock pictures ending in every number of not-coded macroblocks, followed by another picture; non-trivial = sequences of two or more pictures"
+        "all sequences of 1..={maxlen} pictures (thorough: also of four pictures over every second letter) from an alphabet of type {{I,P,D}} x 8 PEI counts (every padding length 0..7) x bodies (last macroblock coded with AC data / not coded / with MCBPC stuffing codewords) per size, from a fresh decoder and after an I picture, in Sorenson and standard mode: decoder A reads the concatenation from one reader, decoder B gets one reader per picture; A, B and the reference decoder must agree after every call and A's reader must end within 8 bits of the end; plus pictures ending in each kind of final syntax element (every TCOEF form incl. each escape width, INTRADC, COD, each MVD shape, after DQUANT, position 63) at every padding length 0..7, alone / before / after another picture; standard-mode pictures that stop early before the next start code (whenever their own reader accepts them the shared reader must too, with the same picture, and the next picture decodes); 80-macroblock pictures ending in every number of not-coded macroblocks, followed by another picture; non-trivial = sequences of two or more pictures"
     ));
     rep.assume("pictures of one sequence share a size (prediction across sizes is outside the valid-stream premise)");
     rep
